@@ -3,6 +3,15 @@ import Vita.C11.BigLemmas
 import Vita.C11.CacheLemmas
 import Vita.C11.LambdaLemmas
 import Vita.C11.Toy
+import Vita.C11.GenericLemmas
+import Vita.C11.MatrixG
+import Vita.C11.ProxyLemmas
+import Vita.C11.FactoryLemmas
+import Vita.C11.FloatLex
+import Vita.C11.FloatSpot
+import Vita.C11.FormatPairs
+import Vita.C11.GenFormats
+import Vita.C11.FormatLemmas
 /-!
   C11 — save followed by load reproduces the object (property theorems).
 
@@ -242,5 +251,269 @@ example : IMep.ok toyIO toyTab toyInd := by
   · exact ⟨by decide, ⟨true, 0⟩, by decide, by decide, by simp [toyIO], by decide, by decide⟩
 /-- and the theorems really compute on such values -/
 example : IGa.load (IGa.save ⟨5, [-7, 12]⟩) = some (⟨5, [-7, 12]⟩, ['\n']) := by decide
+
+
+/-! ## round 3 -/
+
+/-! ### the field sequences extracted from the clang AST (`GenFormats.lean`, regenerated on every run)
+
+    For every save / load pair of `Fmt.pairs`: on the success path `load` reads exactly the fields `save`
+    writes, in the same order and the same loop / branch structure, each into a type that holds every value
+    of the type written (or one of the five documented narrowings of `Fmt.accepted`), every `double` is
+    written with 17 significant digits in scientific notation, and a field whose origin / destination data
+    member is known on both sides is the same member. -/
+set_option maxRecDepth 100000 in
+theorem formats_agree : ∀ p ∈ Fmt.pairs, Fmt.agrees Fmt.Gen.table Fmt.accepted p.1 p.2 = true := by decide
+
+set_option maxRecDepth 100000 in
+/-- in every record two fields are separated by white space on every path, and the record ends with white
+    space (so whatever is written next cannot merge with its last field) -/
+theorem formats_separated : ∀ p ∈ Fmt.records, Fmt.separated Fmt.Gen.table p.1 = true := by decide
+
+/-- the checks discriminate: a field added to `save` only, two fields of different type swapped, a `double`
+    written without the precision manipulators, two fields written without a separator -/
+example : Fmt.agrees [⟨"s", .seq (.fld .u32 "a" "") (.seq (.sep 32) (.seq (.fld .u32 "b" "") (.sep 10)))⟩,
+    ⟨"l", .fld .u32 "a" "x"⟩] [] "s" "l" = false := by decide
+example : Fmt.agrees [⟨"s", .seq (.fld .u32 "a" "") (.seq (.sep 32) (.fld .f64 "b" ""))⟩,
+    ⟨"l", .seq (.fld .f64 "b" "") (.fld .u32 "a" "")⟩] [] "s" "l" = false := by decide
+example : Fmt.agrees [⟨"s", .fld .f64 "a" ""⟩, ⟨"l", .fld .f64 "a" ""⟩] [] "s" "l" = false := by decide
+example : Fmt.agrees [⟨"s", .seq (.fld .u64 "a" "") (.seq (.sep 32) (.fld .u64 "b" ""))⟩,
+    ⟨"l", .seq (.fld .u64 "b" "") (.fld .u64 "a" "")⟩] [] "s" "l" = false := by decide
+example : Fmt.separated [⟨"s", .seq (.fld .u32 "a" "") (.seq (.fld .u32 "b" "") (.sep 10))⟩] "s" = false := by decide
+example : Fmt.separated [⟨"s", .seq (.fld .u32 "a" "") (.seq (.sep 32) (.fld .u32 "b" ""))⟩] "s" = false := by decide
+
+/-- what the two checks mean, proved for the flat fragment (records that are sequences of integer fields and
+    separators: `hash_t`, the headers of `matrix` / `cache` / `population`, the trailer of `summary`): if every
+    value fits the type it is written with, every load type holds the save type at the same position and every
+    field is followed by a white-space separator, then reading the load types off the text written — followed by
+    anything — gives back exactly the values and stops right after the last field -/
+theorem flat_format_roundtrip (items : List Flat.Item) (ltys : List Flat.FTy) (vs : List Int) (r : Str)
+    (hsep : Flat.Separated items) (hfit : Flat.Fits (Flat.fields items) vs)
+    (hh : Flat.Holds (Flat.fields items) ltys) :
+    Flat.readAll ltys (Flat.write items vs ++ r) = some (vs, Flat.trail items ++ r) :=
+  Flat.flat_roundtrip items ltys vs r hsep hfit hh
+
+example : Flat.Separated [.fld (.u U64), .sep ' ', .fld (.u U64), .sep '\n'] ∧
+    Flat.Holds [.u U32, .i I32] [.u U64, .i I64] := by
+  refine ⟨⟨by decide, by decide, trivial⟩, ?_, ?_, trivial⟩ <;> simp [Flat.FTy.holds, U32, U64, I32, I64]
+
+/-! ### team<T>, population<T>, summary<T> for every member type `T` with the block property
+    (`i_ga`, `i_de`, `i_mep`, and `team<T>` again: `population<i_ga>`, `summary<i_de>`, `team<i_ga>`,
+    `population<team<i_mep>>`, …) -/
+
+theorem iga_block : igaSer.Block := igaSer_block
+theorem ide_block (io : FloatIO F) (law : FloatLaw io) : (ideSer io).Block := ideSer_block io law
+theorem imep_block (io : FloatIO F) (law : FloatLaw io) (tab : SymTab) : (imepSer io tab).Block :=
+  imepSer_block io law tab
+theorem team_block {X} (s : Ser X) (hb : s.Block) : (teamSer s).Block := teamSer_block s hb
+
+theorem teamOf_load_save {X} (s : Ser X) (hb : s.Block) (t : List X) (hk : TeamOf.ok s t) (r : Str) :
+    TeamOf.load s (TeamOf.save s t ++ r) = some (t, '\n' :: r) := TeamOf.load_save s hb t hk r
+
+theorem teamOf_save_load_save {X} (s : Ser X) (hb : s.Block) (t t' : List X) (hk : TeamOf.ok s t) (rest : Str)
+    (hl : TeamOf.load s (TeamOf.save s t) = some (t', rest)) : TeamOf.save s t' = TeamOf.save s t := by
+  have := TeamOf.load_save s hb t hk []
+  simp only [List.append_nil] at this
+  rw [this] at hl
+  cases hl; rfl
+
+theorem popOf_load_save {X} (s : Ser X) (hb : s.Block) (p : List (LayerOf X)) (hk : PopOf.ok s p) (r : Str) :
+    PopOf.load s (PopOf.save s p ++ r) = some (p, '\n' :: r) := PopOf.load_save s hb p hk r
+
+theorem popOf_save_load_save {X} (s : Ser X) (hb : s.Block) (p p' : List (LayerOf X)) (hk : PopOf.ok s p)
+    (rest : Str) (hl : PopOf.load s (PopOf.save s p) = some (p', rest)) : PopOf.save s p' = PopOf.save s p := by
+  have := PopOf.load_save s hb p hk []
+  simp only [List.append_nil] at this
+  rw [this] at hl
+  cases hl; rfl
+
+theorem summaryOf_load_save {X} (io : FloatIO F) (law : FloatLaw io) (s : Ser X) (hb : s.Block)
+    (x : SummaryOf X F) (hk : x.ok io s) (r : Str) :
+    SummaryOf.load io s (x.save io s ++ r) = some (x, '\n' :: r) := SummaryOf.load_save io law s hb x hk r
+
+theorem summaryOf_save_load_save {X} (io : FloatIO F) (law : FloatLaw io) (s : Ser X) (hb : s.Block)
+    (x x' : SummaryOf X F) (hk : x.ok io s) (rest : Str)
+    (hl : SummaryOf.load io s (x.save io s) = some (x', rest)) : x'.save io s = x.save io s := by
+  have := SummaryOf.load_save io law s hb x hk []
+  simp only [List.append_nil] at this
+  rw [this] at hl
+  cases hl; rfl
+
+example : TeamOf.ok igaSer [⟨1, [3, -4]⟩, ⟨0, []⟩] := by
+  simp [TeamOf.ok, igaSer, IGa.ok, U32, U64, I32]
+example : PopOf.load igaSer (PopOf.save igaSer [⟨3, [⟨1, [5]⟩]⟩, ⟨2, []⟩]) =
+    some ([⟨3, [⟨1, [5]⟩]⟩, ⟨2, []⟩], ['\n']) := by decide
+
+/-! ### matrix<T> for every integral element type (character types as repaired: written as numbers) -/
+
+theorem matrixG_load_save (k : IntKind) (m : Matrix) (hk : MatrixG.ok k m) (r : Str) :
+    MatrixG.load k (m.save ++ r) = some (m, '\n' :: r) := MatrixG.load_save k m hk r
+
+theorem matrixG_save_load_save (k : IntKind) (m m' : Matrix) (hk : MatrixG.ok k m) (rest : Str)
+    (hl : MatrixG.load k m.save = some (m', rest)) : m'.save = m.save := by
+  have := MatrixG.load_save k m hk []
+  simp only [List.append_nil] at this
+  rw [this] at hl
+  cases hl; rfl
+
+example : MatrixG.ok (.sint I8) ⟨2, [-128, 127, 32, 10]⟩ := by
+  simp [MatrixG.ok, Matrix.rows, IntKind.ok, U64, I8]
+
+/-- finding C11-matrix-char: in the unrepaired format (one raw byte per element) a `matrix<char>` holding a
+    blank cannot be read back, one holding a newline neither -/
+theorem matrix_char_raw_not_loadable :
+    MatrixRaw.load (MatrixRaw.save ⟨2, [32, 98]⟩) = none ∧
+    MatrixRaw.load (MatrixRaw.save ⟨2, [97, 10, 99, 100]⟩) = none := by decide
+
+/-! ### evaluator_proxy and search::save / load (env.misc.serialization_file) -/
+
+theorem proxy_load_save (io : FloatIO F) (law : FloatLaw io) (e : EvaSer) (he : e.Sound) (c : Cache F)
+    (hk : c.ok io) (r : Str) :
+    ∃ rest, Proxy.loadInto io e (Cache.fresh c.bits) (Proxy.save io e c ++ r)
+      = some (⟨c.bits, c.table.map (keepLive c.sl), c.sl⟩, rest) := Proxy.load_save io law e he c hk r
+
+/-- the reloaded proxy finds what the original finds, for every non-empty signature -/
+theorem proxy_lookups_equal (io : FloatIO F) (law : FloatLaw io) (e : EvaSer) (he : e.Sound) (c c' : Cache F)
+    (hk : c.ok io) (rest : Str)
+    (hl : Proxy.loadInto io e (Cache.fresh c.bits) (Proxy.save io e c) = some (c', rest))
+    (h : Hash) (hne : h.isEmpty = false) : c'.find h = c.find h := by
+  obtain ⟨rest', he'⟩ := Proxy.load_save io law e he c hk []
+  simp only [List.append_nil] at he'
+  rw [he'] at hl
+  cases hl
+  exact find_reloaded c hk.2.1 h hne
+
+/-- `operator()` of the reloaded proxy returns the same fitness as the original's for every program, and calls
+    the real evaluator exactly when the original would -/
+theorem proxy_answers_equal (io : FloatIO F) (law : FloatLaw io) (e : EvaSer) (he : e.Sound) (c c' : Cache F)
+    (hk : c.ok io) (rest : Str)
+    (hl : Proxy.loadInto io e (Cache.fresh c.bits) (Proxy.save io e c) = some (c', rest))
+    (eva : Hash → List F) (h : Hash) (hne : h.isEmpty = false) :
+    (Proxy.eval eva c' h).1 = (Proxy.eval eva c h).1 ∧ (Proxy.eval eva c' h).2.2 = (Proxy.eval eva c h).2.2 :=
+  Proxy.eval_congr eva c c' h (proxy_lookups_equal io law e he c c' hk rest hl h hne)
+
+theorem proxy_save_load_save (io : FloatIO F) (law : FloatLaw io) (e : EvaSer) (he : e.Sound) (c c' : Cache F)
+    (hk : c.ok io) (rest : Str)
+    (hl : Proxy.loadInto io e (Cache.fresh c.bits) (Proxy.save io e c) = some (c', rest)) :
+    Proxy.save io e c' = Proxy.save io e c := by
+  obtain ⟨rest', he'⟩ := Proxy.load_save io law e he c hk []
+  simp only [List.append_nil] at he'
+  rw [he'] at hl
+  cases hl
+  simp only [Proxy.save, save_reloaded io c hk.2.1]
+
+/-- `search::close()` then `search::init()` of a new search on the same environment: the file written by
+    `save` is read back by `load` into the fresh training evaluator, which then finds what the old one found -/
+theorem search_load_save (io : FloatIO F) (law : FloatLaw io) (cfg : SearchCfg) (e : EvaSer) (he : e.Sound)
+    (c : Cache F) (hk : c.ok io) (hf : cfg.fileName ≠ []) (hb : cfg.cacheBits = c.bits) (hb0 : c.bits ≠ 0) :
+    ∃ file c', Search.save io cfg true e c = (true, some file) ∧
+      Search.load io cfg (some file) e (Cache.fresh cfg.cacheBits) = some c' ∧
+      (∀ h : Hash, h.isEmpty = false → c'.find h = c.find h) ∧
+      Search.save io cfg true e c' = (true, some file) := by
+  obtain ⟨rest, hl⟩ := Proxy.load_save io law e he c hk []
+  simp only [List.append_nil] at hl
+  have hcb : cfg.cacheBits ≠ 0 := by rw [hb]; exact hb0
+  refine ⟨Proxy.save io e c, ⟨c.bits, c.table.map (keepLive c.sl), c.sl⟩, ?_, ?_, ?_, ?_⟩
+  · simp [Search.save, hf, hcb]
+  · simp only [Search.load, hf, hcb, if_false, hb, hb0, hl]
+  · intro h hne
+    exact find_reloaded c hk.2.1 h hne
+  · simp only [Search.save, hf, hcb, if_false, Bool.not_true, Bool.false_eq_true, Proxy.save,
+      save_reloaded io c hk.2.1]
+
+/-- no file name: nothing is written, `load` succeeds and leaves the evaluator alone; no cache: an empty file -/
+theorem search_trivial (io : FloatIO F) (e : EvaSer) (c c0 : Cache F) (name : Str) (hn : name ≠ []) :
+    Search.save io ⟨[], c.bits⟩ true e c = (true, none) ∧
+    Search.load io ⟨[], c.bits⟩ none e c0 = some c0 ∧
+    Search.save io ⟨name, 0⟩ true e c = (true, some []) ∧
+    Search.load io ⟨name, 0⟩ (some []) e c0 = some c0 := by
+  simp [Search.save, Search.load, hn]
+
+example : (EvaSer.counter 42).Sound := EvaSer.counter_sound 42 (by unfold U64; decide)
+example : EvaSer.base.Sound := EvaSer.base_sound
+
+/-! ### the factory of `serialize::lambda::load<T>`: what can be loaded depends on the calls made before -/
+
+theorem factory_reach_inv (fs : List Str) (h : Factory.Reach fs) : Factory.Inv fs := Factory.inv_of_reach fs h
+
+/-- `load<T>` with the `T` of the model (`i_mep` for the four plain kinds, `team<i_mep>` for the `TEAM_` kinds)
+    loads it whatever was loaded before in the process -/
+theorem factory_load_matching (io : FloatIO F) (law : FloatLaw io) (tab : SymTab) (fs : List Str)
+    (hfs : Factory.Reach fs) (x : Lambda F) (hk : x.ok io tab) (r : Str) :
+    (Factory.load io tab x.isTeam fs (x.save io ++ r)).2 = some (x, x.tail ++ r) :=
+  Factory.load_matching io law tab fs (Factory.inv_of_reach fs hfs) x hk r
+
+/-- `load<T>` with the other `T` (e.g. the default `load<>` = `load<i_mep>` on a `TEAM_` model) gives the model
+    exactly when an earlier call already registered its id, and `nullptr` otherwise -/
+theorem factory_load_other (io : FloatIO F) (law : FloatLaw io) (tab : SymTab) (fs : List Str)
+    (x : Lambda F) (hk : x.ok io tab) (r : Str) :
+    (Factory.load io tab (!x.isTeam) fs (x.save io ++ r)).2 =
+      if x.sid ∈ fs then some (x, x.tail ++ r) else none := Factory.load_other io law tab fs x hk r
+
+/-- in a fresh process the default `load<i_mep>` cannot load a team model -/
+example : (Factory.load toyIO toyTab false [] ((Lambda.teamReg [toyInd]).save toyIO)).2 = none := by decide
+
+/-! ### the decimal text actually written and read -/
+
+/-- the integer printers / readers are exact: every `n ≤ M` written in decimal and followed by a separator is
+    read back by `operator>>(unsigned type with maximum M)` -/
+theorem nat_read_show (M n : Nat) (r : Str) (hn : n ≤ M) (hr : Sep r) :
+    readU M (showNat n ++ r) = some (n, r) := readU_showNat M n r hn hr
+
+theorem int_read_show (H : Nat) (i : Int) (r : Str) (hlo : -(H + 1 : Int) ≤ i) (hhi : i ≤ H) (hr : Sep r) :
+    readI H (showInt i ++ r) = some (i, r) := readI_showInt H i r hlo hhi hr
+
+/-- the character automaton of `operator>>(double&)` accepts exactly a text of the scientific shape
+    `[-]d.ddd…e±dd…` and stops at the separator that follows -/
+theorem lexFloat_accepts_sci (neg : Bool) (d0 : Char) (frac : Str) (eneg : Bool) (expd : Str) (r : Str)
+    (h0 : d0.isDigit = true) (hf : ∀ c ∈ frac, c.isDigit = true) (he : ∀ c ∈ expd, c.isDigit = true)
+    (hr : Sep r) :
+    lexFloat (sciText neg d0 frac eneg expd ++ r) = (sciText neg d0 frac eneg expd, r) :=
+  lexFloat_sciText neg d0 frac eneg expd r h0 hf he hr
+
+/-- `FloatLaw` follows from two facts about the C library in which no stream occurs: the text of a finite
+    value has the scientific shape, and `strtod` of that text is the value -/
+theorem floatLaw_of_shape_and_numeric (io : FloatIO F)
+    (hshape : ∀ x, io.finite x = true → SciShape (io.fmt x))
+    (hnum : ∀ x, io.finite x = true → io.conv (io.fmt x) = some x) : FloatLaw io :=
+  floatLaw_of_numeric io hshape hnum
+
+/-- (shape) is a theorem for the exact-arithmetic `printf("%.16e")` the compiled driver runs -/
+theorem floatImpl_shape (b : Nat) (hb : FloatImpl.finite b = true) : SciShape (FloatImpl.fmt17 b) :=
+  FloatImpl.fmt17_shape b hb
+
+/-- … so for that instance the law is exactly the numeric round trip of 64-bit patterns -/
+theorem floatImpl_law_of_numeric
+    (hnum : ∀ b, b < 2 ^ 64 → FloatImpl.finite b = true → FloatImpl.strtod (FloatImpl.fmt17 b) = some b) :
+    FloatLaw FloatImpl.ioW :=
+  floatLaw_of_numeric FloatImpl.ioW
+    (fun b hb => FloatImpl.fmt17_shape b (by
+      have : (decide (b < 2 ^ 64) && FloatImpl.finite b) = true := hb
+      simp only [Bool.and_eq_true] at this
+      exact this.2))
+    (fun b hb => by
+      have : (decide (b < 2 ^ 64) && FloatImpl.finite b) = true := hb
+      simp only [Bool.and_eq_true, decide_eq_true_eq] at this
+      exact hnum b this.1 this.2)
+
+set_option maxRecDepth 100000 in
+set_option exponentiation.threshold 3000 in
+/-- the numeric round trip checked by the kernel on boundary patterns (zero, subnormals, smallest / largest
+    normal, neighbours of powers of two and ten, 2^53 ± 1 ulp; a sample, not the law) -/
+theorem floatImpl_boundary :
+    ∀ b ∈ FloatImpl.boundaryPos, FloatImpl.finite b = true ∧ FloatImpl.strtod (FloatImpl.fmt17 b) = some b := by
+  decide
+
+/-- finding C11-fit-empty cannot be repaired in `load` alone: after a `hash_t` the stream the fitness loader
+    sees for the slot `(h, [x])` is byte for byte the stream it sees for an empty fitness followed by the
+    fitness `[x]` — no loader answers both correctly -/
+theorem fitness_empty_no_load_only_fix (io : FloatIO F) (L : P (List F)) (x : F) (r : Str)
+    (hslot : L ('\n' :: (Fitness.save io [x] ++ r)) = some ([x], r)) :
+    L (Fitness.save io [] ++ (Fitness.save io [x] ++ r)) ≠ some ([], Fitness.save io [x] ++ r) := by
+  have e : Fitness.save io [] ++ (Fitness.save io [x] ++ r) = '\n' :: (Fitness.save io [x] ++ r) := by
+    simp [Fitness.save, items]
+  rw [e, hslot]
+  intro h
+  cases h
 
 end Vita.C11
